@@ -45,6 +45,16 @@ def doc_usages(kind, text):
         for m in re.finditer(r"^\*\*Usage\*\*:(.*)$", text, re.M):
             t = re.sub(r"\\(.)", r"\1", m.group(1).replace("**", "").replace("_`", "").replace("`_", "").replace("`", ""))
             out.append(pe("Usage:" + "".join(t.split())))
+    elif kind == "manpage":
+        # the lines of every SYNOPSIS section (the summary at the top repeats them all)
+        insyn = False
+        for l in text.split("\n"):
+            if l.startswith(".SH"):
+                insyn = l.strip() == ".SH SYNOPSIS"
+            elif insyn and l and not l.startswith("."):
+                t = re.sub(r"\\f[BIRP]", "", l).replace("\\-", "-").replace("\\&", "")
+                if t.strip():
+                    out.append(pe("Usage:" + "".join(t.split())))
     else:
         for m in re.finditer(r"<b>Usage</b>:(.*?)</p>", text, re.S):
             t = html.unescape(re.sub(r"<[^>]*>", "", m.group(1)))
@@ -89,7 +99,7 @@ def judge_render(v, pid, hbin, fam, tag, docs=False, spec_fam=None, usage=False)
             if usage and x["kind"] == "help" and x.get("class") == "stdout":
                 rec["usage"] = usage_of(x.get("text", ""))
                 rec["sections"] = sections_of(x.get("text", ""))
-            if usage and x["kind"] in ("markdown", "html") and x.get("text"):
+            if usage and x["kind"] in ("markdown", "html", "manpage") and x.get("text"):
                 rec["usages"] = doc_usages(x["kind"], x["text"])
             w.write(json.dumps(rec) + "\n")
     t = run_tlc("HelpModel", "HelpModel.cfg", env={"TRACE": slim, "DEFS": spath}, workers=1,
@@ -152,7 +162,7 @@ def run(v):
     levels = len(recs)
     samples = [{"def": r["def"], "path": r["path"], "items": r["items"][:12]} for r in recs[5:8]]
     cov = {"states": t["distinct"], "transitions": t["states"], "traces_validated_against_impl": levels, "samples": samples,
-           "definitions": len(fam), "documents_with_usage_lines": len([r for r in drecs if r["kind"] in ("markdown", "html")]), "command_levels": levels, "distinct_nontrivial": levels, "exhaustive": False,
+           "definitions": len(fam), "documents_with_usage_lines": len([r for r in drecs if r["kind"] in ("markdown", "html", "manpage") and r.get("text")]), "command_levels": levels, "distinct_nontrivial": levels, "exhaustive": False,
            "rule": "generated definitions (all item kinds/arities, aliases, hidden items, hide_usage/custom_usage, group_help, "
                    "choices, adjacent groups, command trees of depth <= 3, level descriptions/headers/footers); help of every "
                    "reachable command level tokenised and compared by TLC with Listing computed from the definition "
